@@ -4,6 +4,8 @@
 mod abs;
 mod c10;
 mod c13;
+mod c16;
+mod doc;
 mod inv;
 
 use std::io::{BufRead, BufReader, Write};
@@ -64,6 +66,7 @@ fn main() {
     match fam {
         "c10" => c10::run(&args[2], &args[3]),
         "c13" => c13::run(&args[2], &args[3]),
+        "c16" => c16::run(&args[2], &args[3]),
         _ => {
             eprintln!("unknown family {}", fam);
             std::process::exit(2);
